@@ -159,6 +159,8 @@ func execNsec(f []string) vlib.Res {
 		return execAuthNsec(f)
 	case "authu":
 		return execAuthUnsigned(f, false)
+	case "ans":
+		return execAnswer(f, false)
 	case "truth":
 		c, _ := curZone.answerClass(parseName(f[2]), uint16(atoi(f[3])))
 		return vlib.Res{Impl: c}
